@@ -163,6 +163,10 @@ def run(tier):
                 ck.violation("mean function value (build_mean, mean_and_gradients, __call__ agree with the definition)",
                              {"X": c["X"], "mean": md, "want": want_mx, "build_mean": got_mx, "call_at_queries": got_pts, "want_queries": want_mq},
                              site=f"{mname}.build_mean")
+            err = G.mean_consistency(md, c["X"], 2.0 ** 40 + 1234567 * 2.0 ** -12)
+            if not err <= 1e-9:
+                ck.violation("build_mean, mean_and_gradients and __call__ are one function, also for coordinates far from zero (non-dyadic parameters)",
+                             {"X": c["X"], "mean": md, "relative_difference": err, "coordinates_translated_by": 2.0 ** 40}, site=f"{mname}.__call__:far")
             want_mg = np.array([[G.fr(v) for v in row] for row in c["mgrads"]]).T        # [param][point]
             got_mg = np.array([np.asarray(g, dtype=float) for g in mg])
             if not close(got_mg, want_mg):
